@@ -42,6 +42,9 @@ Definition instantiate (http_names : list string) (template : string) : list str
     map (fun w => join_with "." (map (fun s => if String.eqb s "%any%" then w else s) segs)) names
   else [template].
 
+(* the linter context after the declarations of the observation preamble *)
+Definition the_ctx : lint_ctx := declared_ctx backend_names director_names ratecounter_names.
+
 Definition var_ops : list string := ["get"; "set"; "unset"].
 
 Definition var_rows (http_names : list string) : list (string * string * string) :=
@@ -108,6 +111,11 @@ Definition opl_rows : list (string * string * string) :=
   flat_map (fun op => flat_map (fun l => map (fun lp => (op, l, lp)) (filter (form_exists l) prov_forms)) op_types) all_ops.
 Definition op_cells_left : list (N * string * string) :=
   filter (fun c => match c with (_, _, f) => mem_str f ["lit"; "local"] end) op_cells_existing.
+(* other spellings of a literal and a header sub-field as right operand: (bit, variant, value type, form of the base cell) *)
+Definition lit_variants : list (N * string * string * string) :=
+  [(0, "int-neg", "INTEGER", "lit"); (1, "float-neg", "FLOAT", "lit"); (2, "rtime-m", "RTIME", "lit"); (3, "rtime-h", "RTIME", "lit");
+   (4, "rtime-d", "RTIME", "lit"); (5, "rtime-y", "RTIME", "lit"); (6, "rtime-ms", "RTIME", "lit"); (7, "str-long", "STRING", "lit");
+   (8, "bool-false", "BOOL", "lit"); (9, "hdr-field", "header", "local")]%N.
 Definition obs_op_key (r : string * string * N * N) : string * string := match r with (o, l, _, _) => (o, l) end.
 
 (* ---- known gaps: (kind, name, at, bits) *)
@@ -165,7 +173,7 @@ Definition id_positions (f : bfunc) : list N :=
 Definition interp_func_agrees (f : bfunc) (g : ifunc) : bool :=
   N.eqb (compact_of lint_scope_bit (f_scopes f)) (compact_of interp_scope_bit (if_scope g))
   && Bool.eqb (if_stmt g) (N.eqb (f_ret f) T_Never)
-  && list_eqb N.eqb (id_positions f) (if_ident g).
+  && forallb (fun i => mem_N i (if_ident g)) (id_positions f) && forallb (fun i => mem_N i (id_positions f)) (if_ident g).
 
 (* ---- a value where a type is expected: contexts x expected types; positions are those of the operator cells *)
 Definition coerce_ctxs : list string := ["arg"; "ret"; "par"].
